@@ -103,7 +103,9 @@ def case_st(draw):
     i = steps.index("ins+")
     if "del+" not in steps[i + 1:]:
         steps.append("del+")
-    return {"steps": steps, "mode": draw(st.sampled_from(["a", "w"])), "pre": draw(st.booleans()), "seed": draw(st.integers(0, 1000))}
+    # initial particle number: with 1 (or 0) the history reaches the empty box, whose frame has zero atom lines
+    return {"steps": steps, "mode": draw(st.sampled_from(["a", "w"])), "pre": draw(st.booleans()), "seed": draw(st.integers(0, 1000)),
+            "n0": draw(st.sampled_from([3, 3, 1, 0]))}
 
 
 def paths(tmp):
@@ -125,7 +127,8 @@ def run_history(case, p, crash_at=None, on_round=None, wrap=True):
     from quansino.moves.exchange import ExchangeMove
 
     shared = {"n": 0, "ops": [], "crash_at": crash_at, "rounds": []}
-    atoms = Atoms("Ar3", positions=[[1, 1, 1], [3, 3, 3], [5, 5, 2]], cell=[7, 7, 7], pbc=True)
+    n0 = int(case.get("n0", 3))
+    atoms = Atoms("Ar" * n0, positions=[[1, 1, 1], [3, 3, 3], [5, 5, 2]][:n0], cell=[7, 7, 7], pbc=True)
     atoms.calc = ModelCalc("pair", {"k": 0.05, "center": (3.5, 3.5, 3.5), "a": 0.4, "s": 1.6})
     if wrap:
         files = {t: CountingFile(open(path, case["mode"]), t, shared) for t, path in p.items()}
@@ -134,9 +137,9 @@ def run_history(case, p, crash_at=None, on_round=None, wrap=True):
         kw = {"logfile": p["log"], "restart_file": p["restart"], "trajectory": p["traj"]}
     with warnings.catch_warnings():
         warnings.simplefilter("ignore")
-        mc = GrandCanonical(atoms, exchange_atoms=Atoms("OH", positions=[[0, 0, 0], [0, 0, 1.0]]), temperature=300.0, number_of_exchange_particles=3,
+        mc = GrandCanonical(atoms, exchange_atoms=Atoms("OH", positions=[[0, 0, 0], [0, 0, 1.0]]), temperature=300.0, number_of_exchange_particles=n0,
                             seed=case["seed"], max_cycles=1, logging_mode=case["mode"], **kw)
-        mv = ExchangeMove(np.array([0, 1, 2]))
+        mv = ExchangeMove(np.arange(n0))
         crit = ScriptedCriteria()
         mc.add_move(mv, criteria=crit, name="x")
 
@@ -226,6 +229,8 @@ def run_case(case):
         except Exception as exc:
             return {"labels": labels + ["raised"], "nontrivial": True, "violation": {"kind": f"run-raises:{type(exc).__name__}", "detail": repr(exc)[:300]}}
         evals += len(natoms)
+        if 0 in natoms:
+            labels.append("empty-box-visited")
         if viol:
             return {"labels": labels, "nontrivial": True, "weight": evals, "keys": ["nocrash-viol"], "violation": {"kind": "nocrash:" + viol[0][0], "detail": f"steps={case['steps']} mode={case['mode']} pre={case['pre']}: {viol[0][1]}"}}
         for r in range(1, len(images)):
